@@ -335,8 +335,11 @@ def apply_edits(fn_name, sig2, body2, rewrites, inserts, notes):
         if where == "start":
             body2 = "{\n" + text + body2[1:]
             continue
+        first = where.endswith("@first")
+        if first:
+            where = where[:-6]
         cnt = body2.count(anchor)
-        if cnt != 1:
+        if cnt != 1 and not (first and cnt > 1):
             raise LostAnchor("%s: anchor %r occurs %d times (need exactly 1)" % (fn_name, anchor, cnt))
         k = body2.index(anchor)
         if where == "before":
@@ -367,10 +370,13 @@ def extract_fn(repo, file, name, impl=None, nth=0, ret=None, spec="", inserts=()
     if as_name:
         sig2 = re.sub(r"\bfn\s+%s\b" % re.escape(name), "fn " + as_name, sig2, count=1)
     if ret:
-        m = re.search(r"->\s*(.+?)\s*(where\b.*)?$", sig2, re.S)
+        # the return arrow is the one after the parameter list (parameter types may contain `->` themselves)
+        po = sig2.find("(", sig2.find("fn "))
+        pc = match_brace(sig2, po) if po >= 0 else 0
+        m = re.search(r"->\s*(.+?)\s*(where\b.*)?$", sig2[pc:], re.S)
         if not m:
             raise LostAnchor("%s: no return type to name" % ex.fn_name)
-        sig2 = sig2[:m.start()] + "-> (%s: %s)" % (ret, m.group(1).strip()) + ((" " + m.group(2)) if m.group(2) else "")
+        sig2 = sig2[:pc + m.start()] + "-> (%s: %s)" % (ret, m.group(1).strip()) + ((" " + m.group(2)) if m.group(2) else "")
     body2, nlog = drop_log_statements(body)
     if nlog:
         ex.notes.append("R2: dropped %d log statement(s) in %s" % (nlog, ex.fn_name))
@@ -598,10 +604,11 @@ def _parse_fn_block(block):
             flush()
             cur = ("spec", None)
             continue
-        m = re.match(r'insert (before|after|loopinv) "(.*)":$', st)
+        m = re.match(r'insert (before|after|loopinv)( first)? "(.*)":$', st)
         if m:
             flush()
-            cur = (m.group(1), m.group(2).replace('\\"', '"'))
+            # `first`: the anchor may occur several times, the first occurrence is meant (robust against edits that add more)
+            cur = (m.group(1) + ("@first" if m.group(2) else ""), m.group(3).replace('\\"', '"'))
             continue
         if st == "insert start:":
             flush()
